@@ -4,7 +4,7 @@ from vlib.runner import Ob
 PK = dict(harness="h_packet.c", units=["src/hamm.c"],
           stubs=["struct caption carved out of vbi_decoder (include guard CC_H + dummy)", "vbi_send_event: log", "cache get/put/unref: stub",
                  "vbi_cni_table: empty", "8/30 + VPS decoders: stub FALSE", "_vbi_strlcpy: local copy"],
-          unwindset={"bytes_eq.0": 5000, "flip.0": 50, "is_ham8.0": 20, "ref_unham8.0": 20, "ref_ham24.0": 30, "ref_ham24.1": 8, "ref_ham24.2": 30, "ref_ham24.3": 30})
+          unwindset={"bytes_eq.0": 5000, "flip.0": 50, "is_ham8.0": 20, "ref_unham8.0": 20, "ref_ham24.0": 30, "ref_ham24.1": 30, "ref_ham24.2": 30, "ref_ham24.3": 30})
 
 
 def packet_obs():
@@ -75,6 +75,12 @@ def packet_obs():
         encodes=["vbi_decode_teletext", "parse_mot", "parse_pop", "parse_btt", "parse_ait", "parse_mpt", "parse_mpt_ex", "parse_27", "parse_28_29", "parse_8_30"],
         bounds="one packet; magazine 1 and 8, every packet number (thorough) / one per class (quick); page data concrete zero (leaf parsers have their own obligations)",
         grid=RG, quick_grid=[dict(MAGN=1, PKTN=p) for p in (1, 25, 26, 27, 28, 29, 30, 31)], timeout=900, mem_gb=6, **PK)
+    o["header"] = Ob("ttx_header", func="h_ttx_header", unwind=50, vin_size=128, reach=["end", "pageno_err", "sub_err", "clean"],
+        desc="vbi_decode_teletext on a page header X/0 with arbitrary 40 bytes (no page in progress, cache miss): an uncorrectable page number stores nothing; an uncorrectable "
+             "subcode or control byte marks the page DISCARD (never assembled, hence never stored under a wrong subcode); otherwise the opened page carries exactly the "
+             "transmitted page number, subcode S1..S4, national option bits and control bits (reference: EN 300 706 9.3.1 from the nibbles of an independent Hamming decoder)",
+        encodes=["vbi_decode_teletext (case 0)", "vbi_unham16p", "vbi_convert_page"], bounds="one header; magazine enumerated by the runner; vt.current == NULL",
+        grid=[dict(MAGN=m) for m in range(8)], quick_grid=[dict(MAGN=1), dict(MAGN=0)], timeout=900, mem_gb=8, **PK)
     o["addr_error"] = Ob("ttx_addr_error", func="h_ttx_addr_error", unwind=50, vin_size=64,
         desc="a packet whose address bytes are uncorrectable is rejected and changes nothing (page in progress, X/26 bookkeeping, no cache store, no event)",
         encodes=["vbi_decode_teletext"], bounds="none", timeout=300, mem_gb=4, **PK)
